@@ -18,6 +18,10 @@ CHECKS = {
   text='Coq theorems: from any reachable wrapper state a write never errs, leaves bytes outside [pos,pos+k) untouched and updates the decrypted view like an ordinary file (3DS mode over plain file and window incl. truncation, DSi mode over plain file); all read/write/seek interleavings obey the step contract (no TypeError-style failures); the gap case (write beginning beyond EOF) is refuted on the model and recorded as a known finding; extracted model and an independent whole-stream oracle run against the implementation.',
   note='Trusted as C01. Partial: positive theorem excludes writes that begin beyond the end of a growable file (C12_gap_extension_refuted, KNOWN_FINDINGS).',
   technique='Rocq/Coq invariant proof over operation histories + refutation witness + correspondence'),
+ 'C02': dict(
+  text='Coq theorems for all keys, IVs, block-aligned ciphertexts and all seek/read/tell histories: every read of the CBC wrapper model (at any position, incl. inside the first block, mid-block, at and beyond the end) returns the slice of the whole-stream CBC decryption and leaves the position at the end of the bytes returned, contents unchanged -- over a plain file and over a window; AES decryption is an uninterpreted function assumed only to return 16-byte blocks; the model calls only tell/seek/read on the underlying file; extracted model and PyCryptodome MODE_CBC oracle run against create_cbc_io with a write log on the base file.',
+  note='Trusted: Coq kernel, translator (one leaf), extraction + driver, hand models PyFile/Window/Cipher/CbcIO (tie 2), PyCryptodome as the AES oracle. Section hypothesis length (D k b) = 16 (shown satisfiable by an Example).',
+  technique='Rocq/Coq refinement proof (block algebra + I/O sequencing over lawful files) + correspondence'),
 }
 
 NOT_YET = 'check not built yet in this session (work in progress; see DESIGN.md section 10 order of work)'
